@@ -113,7 +113,7 @@ type fault struct {
 	entry    string
 	d        defect
 	failAt   int
-	cancelAt int // 0 = none, -1 = before the request, k = at the k-th write
+	cancelAt int  // 0 = none, -1 = before the request, k = at the k-th write
 	updater  bool // a concurrent thread creates a label set in every metric during the attempt
 }
 
